@@ -175,7 +175,8 @@ def _check_flip_estimator(ck, inst, asite, p, cls, ocls, absolute):
     env = g[5]
     a_vp, a_v = env.get("vp"), env.get("v")
     want_f = flipped_term(S, I)
-    ok_f = isinstance(a_vp, VTens) and a_vp.term == want_f
+    alt_f = T.upd(S, ("ellipsis", I), 1 - T.app("index", S, ("ellipsis", I)))  # 1 - s is the same flip on {0, 1}
+    ok_f = isinstance(a_vp, VTens) and a_vp.term in (want_f, alt_f)
     if ok_f:
         ck.ok("C08.R3", inst + ":flipped at site i", lp["site"], flipped=a_vp.term)
     elif isinstance(a_vp, VTens) and a_vp.term is not None and a_vp.term == S:
